@@ -199,6 +199,25 @@ func entries() []entry {
 			err := ch.Handle(h)
 			return d.Bytes(), err
 		}},
+		{"Handle/masked-src-last-bytes-with-EOF", func(c ctlCase) ([]byte, error) {
+			// the transport hands over the (masked) payload's last bytes together with io.EOF,
+			// in chunks of 5
+			d := env.NewDst()
+			h := ws.Header{Fin: true, OpCode: ws.OpCode(c.op), Length: int64(len(c.payload)), Masked: true, Mask: srcMask}
+			src := env.NewSrc(refmodel.XOR(c.payload, srcMask, 0))
+			src.Policy = env.FixedChunk(5)
+			src.WithLast = true
+			st := c.st()
+			if c.side == streams.Client {
+				// a client receives unmasked frames; give it the plain payload
+				h.Masked = false
+				src = env.NewSrc(append([]byte{}, c.payload...))
+				src.Policy = env.FixedChunk(5)
+				src.WithLast = true
+			}
+			err := wsutil.ControlHandler{Src: src, Dst: d, State: st}.Handle(h)
+			return d.Bytes(), err
+		}},
 		{"Handle/unmasked-src", func(c ctlCase) ([]byte, error) {
 			d := env.NewDst()
 			h := ws.Header{Fin: true, OpCode: ws.OpCode(c.op), Length: int64(len(c.payload)), Masked: c.side == streams.Server, Mask: srcMask}
@@ -362,7 +381,7 @@ func main() {
 
 		r.Part("E2-all-close-codes", func(t *explore.T) {
 			reasons := [][]byte{{}, []byte("bye"), {0xff, 0xfe}, bytes.Repeat([]byte{'z'}, 123)}
-			quickEntries := []entry{es[0], es[1], es[3], es[4], es[8]}
+			quickEntries := []entry{es[0], es[1], es[2], es[4], es[5], es[9]}
 			if t.Thorough() {
 				quickEntries = es
 			}
